@@ -238,24 +238,24 @@ package raft
 //@   ensures [C18.resp-seterr] resp.err == err && resp.term == old(resp.term) && resp.result == old(resp.result)
 
 // ---- snapshot label (meta file) -----------------------------------------------------------------
-// DISABLED ALTERNATIVE (lines `//ALT@`): verif_contracts_fsm.go holds TRUSTED contracts of (*snapshotMeta).encode/decode
+// DISABLED ALTERNATIVE (lines `//@`): verif_contracts_fsm.go holds TRUSTED contracts of (*snapshotMeta).encode/decode
 // in terms of the abstract label of the meta file (LabelAt), which the fsm / repl proofs use; two contracts for one
 // key are an error. The byte-level contracts below VERIFY (encode 12/12, decode 40/40, 4 mutants caught) when the
-// trusted block in verif_contracts_fsm.go is removed and `//ALT@` is replaced by `//@`. To adopt them: make these the
+// trusted block in verif_contracts_fsm.go is removed and `//@` is replaced by `//@`. To adopt them: make these the
 // func contracts and turn the label contracts into `view ... at <callers>`.
 // index (8) | term (8) | entry of the configuration (21 + lc) | size (8)
-//ALT@ ghost var gmetac int
-//ALT@ func (*snapshotMeta).encode
-//ALT@   requires w != nil
-//ALT@   modifies wdata, wlen, gmetac
-//ALT@   ghostcode after call encode 1: gmetac := len(result0.data)
-//ALT@   ensures [C18.meta-enc] result0 == nil && gmetac < 4294967296 ==> Wrote(w, 45 + gmetac) && gword(wdata[ref(w)], old(wlen[ref(w)])) == m.index && gword(wdata[ref(w)], old(wlen[ref(w)]) + 8) == m.term && EncCfgHdr(wdata[ref(w)], old(wlen[ref(w)]) + 16, m.config) && gword32(wdata[ref(w)], old(wlen[ref(w)]) + 33) == gmetac && gword(wdata[ref(w)], wlen[ref(w)] - 8) == U64(m.size)
-//ALT@   ensures [C18.enc-frame] WroteSome(w)
+//@ ghost var gmetac int
+//@ func (*snapshotMeta).encode
+//@   requires w != nil
+//@   modifies wdata, wlen, gmetac
+//@   ghostcode after call encode 1: gmetac := len(result0.data)
+//@   ensures [C18.meta-enc] result0 == nil && gmetac < 4294967296 ==> Wrote(w, 45 + gmetac) && gword(wdata[ref(w)], old(wlen[ref(w)])) == m.index && gword(wdata[ref(w)], old(wlen[ref(w)]) + 8) == m.term && EncCfgHdr(wdata[ref(w)], old(wlen[ref(w)]) + 16, m.config) && gword32(wdata[ref(w)], old(wlen[ref(w)]) + 33) == gmetac && gword(wdata[ref(w)], wlen[ref(w)] - 8) == U64(m.size)
+//@   ensures [C18.enc-frame] WroteSome(w)
 
-//ALT@ func (*snapshotMeta).decode
-//ALT@   requires r != nil
-//ALT@   modifies rpos, all(m), entry.index, entry.term, entry.typ, entry.data, elems(uint8), contents(m.config.Nodes)
-//ALT@   ensures [C18.meta-dec] result0 == nil ==> m.index == gword(rdata[ref(r)], old(rpos[ref(r)])) && m.term == gword(rdata[ref(r)], old(rpos[ref(r)]) + 8) && EncCfgHdr(rdata[ref(r)], old(rpos[ref(r)]) + 16, m.config)
-//ALT@   ensures [C18.meta-dec-size] result0 == nil ==> rpos[ref(r)] == old(rpos[ref(r)]) + 45 + gword32(rdata[ref(r)], old(rpos[ref(r)]) + 33) && m.size == S64(gword(rdata[ref(r)], rpos[ref(r)] - 8))
-//ALT@   ensures [C18.truncated-is-error] result0 == nil ==> rpos[ref(r)] <= rend[ref(r)] || old(rpos[ref(r)]) > old(rend[ref(r)])
-//ALT@   ensures [C18.dec-frame] ConsumedSome(r)
+//@ func (*snapshotMeta).decode
+//@   requires r != nil
+//@   modifies rpos, all(m), entry.index, entry.term, entry.typ, entry.data, elems(uint8), contents(m.config.Nodes)
+//@   ensures [C18.meta-dec] result0 == nil ==> m.index == gword(rdata[ref(r)], old(rpos[ref(r)])) && m.term == gword(rdata[ref(r)], old(rpos[ref(r)]) + 8) && EncCfgHdr(rdata[ref(r)], old(rpos[ref(r)]) + 16, m.config)
+//@   ensures [C18.meta-dec-size] result0 == nil ==> rpos[ref(r)] == old(rpos[ref(r)]) + 45 + gword32(rdata[ref(r)], old(rpos[ref(r)]) + 33) && m.size == S64(gword(rdata[ref(r)], rpos[ref(r)] - 8))
+//@   ensures [C18.truncated-is-error] result0 == nil ==> rpos[ref(r)] <= rend[ref(r)] || old(rpos[ref(r)]) > old(rend[ref(r)])
+//@   ensures [C18.dec-frame] ConsumedSome(r)
